@@ -16,6 +16,9 @@
 //! which is one element longer); every returned item is additionally put through `clone` / `clone_from` (fresh and used
 //! destination), constructors `iterp` / `iterr` hand `from_iter` a partially consumed / a reversed `ExactSizeIterator`.
 //!
+//! Wave 5: `nlb` / `nlbr` = `lb` / `lbr` with a RE-ENTRANT predicate (at every probe the closure calls into the other live tree
+//! and into harness-private mirrors of both trees before it answers; see `nested_search`); expected output = that of the plain op.
+//!
 //! raw  = `{:?}` of every returned item / answer + `{:?}` of every probe of a search / the `debug()` string
 //! view = observable value (`.v`, `(.v,.len)`, ...) of an `ask`; for a search: answer (or `nm` when the predicate is
 //!        not monotone on the plain shadow vector: outside C02's domain), the observable values of all probes in call
@@ -1311,6 +1314,111 @@ fn clones_agree<T: HItem>(x: &T, last: &mut Option<T>) -> bool {
     ok
 }
 
+/// `lower_bound(pos, f)` / `lower_bound_rev(pos, f)` with `f = |x| g(&x.obs())`, every probe logged; `hook(k)` runs inside
+/// the predicate at the k-th probe, before it answers (the plain ops: nothing; `nlb` / `nlbr`: other segment-tree calls,
+/// see `nested_search`) and says whether what it did was right
+fn search_op<T: HItem>(
+    tree: &mut Segtree<T, T::M>,
+    shadow: &[T::O],
+    rev: bool,
+    pos: usize,
+    g: &Pred<T::O>,
+    hook: &dyn Fn(usize) -> bool,
+) -> (String, String) {
+    let log: RefCell<Vec<T>> = RefCell::new(Vec::new());
+    let hook_ok = std::cell::Cell::new(true);
+    let f = |x: &T| {
+        let k = log.borrow().len();
+        log.borrow_mut().push(x.clone());
+        if !hook(k) {
+            hook_ok.set(false);
+        }
+        g(&x.obs())
+    };
+    let res = if rev { catch(|| tree.lower_bound_rev(pos, f)) } else { catch(|| tree.lower_bound(pos, f)) };
+    match res {
+        Ok(o) => {
+            let log = log.into_inner();
+            let lr: Vec<String> = log.iter().map(|p| p.raw()).collect();
+            let raw = format!("{} [{}]", show_idx(o), lr.join(", "));
+            let (aggs, _) = dir_aggs::<T>(shadow, pos, rev);
+            let flags: Vec<bool> = aggs.iter().map(|a| g(a)).collect();
+            let probes: Vec<T::O> = log.iter().map(|p| p.obs()).collect();
+            let is_range = probes.iter().all(|p| aggs.contains(p));
+            let pv: Vec<String> = probes.iter().map(|p| T::o_view(p)).collect();
+            (
+                raw,
+                format!(
+                    "{} [{}] {}{}",
+                    if monotone(&flags) { show_idx(o) } else { "nm".into() },
+                    pv.join(","),
+                    if is_range { "P" } else { "p!" },
+                    if hook_ok.get() { "" } else { " nested!" }
+                ),
+            )
+        }
+        Err(e) => (e.clone(), e),
+    }
+}
+
+/// `nlb pos pred` / `nlbr pos pred`: the same search as `lb` / `lbr` (same expected raw and view: the model side treats the
+/// two alike), but the predicate is RE-ENTRANT: at every probe, before answering, it runs segment-tree calls on other trees
+/// of the same type -
+///   * on the other live tree (if the history has one): `ask(0, m-1)`, `lower_bound(0, false)`, `lower_bound_rev(m-1, false)` -
+///     calls that stop at the root and leave no trace in the tree's lazy state (the model does not see them);
+///   * on the harness-private mirrors of both live trees (`aux`: same constructor and values, every `set` / `mod` of the
+///     history replayed; never printed): a full `lower_bound(p, same g)`, `lower_bound_rev(m-1-p, same g)` and `ask` at a
+///     position `p` that moves with the probe number; their answers are checked against the same calls made on the
+///     mirror before the outer search started (` nested!` in the view otherwise).
+/// A search must not keep its state anywhere a second search (of another tree, or of the same type) can reach.
+fn nested_search<T: HItem>(
+    cur: &mut Side<T>,
+    other: Option<&mut Side<T>>,
+    aux: &mut [Side<T>],
+    rev: bool,
+    pos: usize,
+    g: &Pred<T::O>,
+) -> (String, String) {
+    let live: Option<(usize, RefCell<&mut Segtree<T, T::M>>)> = other.map(|o| (o.n, RefCell::new(&mut o.tree)));
+    let mirrors: Vec<(usize, RefCell<&mut Segtree<T, T::M>>)> =
+        aux.iter_mut().map(|a| (a.n, RefCell::new(&mut a.tree))).collect();
+    // what the nested calls on a mirror must answer: the same calls made beforehand, one after the other, outside any
+    // predicate (an index / an observable aggregate does not depend on the lazy state they leave behind)
+    const KMAX: usize = 48;
+    let inner = |t: &mut Segtree<T, T::M>, m: usize, k: usize| -> (Option<usize>, Option<usize>, T::O) {
+        let p = (k * 5 + 1) % m;
+        let q = m - 1 - p;
+        let a = t.lower_bound(p, |x: &T| g(&x.obs()));
+        let b = t.lower_bound_rev(q, |x: &T| g(&x.obs()));
+        (a, b, t.ask(p.min(q), p.max(q)).obs())
+    };
+    let want: Vec<Vec<(Option<usize>, Option<usize>, T::O)>> = mirrors
+        .iter()
+        .map(|(m, cell)| {
+            let mut t = cell.borrow_mut();
+            (0..KMAX).map(|k| inner(&mut **t, *m, k)).collect()
+        })
+        .collect();
+    let hook = |k: usize| -> bool {
+        let mut ok = true;
+        if let Some((m, cell)) = &live {
+            let mut t = cell.borrow_mut();
+            let _ = t.ask(0, m - 1);
+            ok &= t.lower_bound(0, |_| false).is_none();
+            ok &= t.lower_bound_rev(m - 1, |_| false).is_none();
+        }
+        for (j, (m, cell)) in mirrors.iter().enumerate() {
+            let mut t = cell.borrow_mut();
+            let got = inner(&mut **t, *m, k);
+            if k < KMAX {
+                ok &= got == want[j][k];
+            }
+        }
+        ok
+    };
+    search_op::<T>(&mut cur.tree, &cur.shadow, rev, pos, g, &hook)
+}
+
 /// one single-tree operation; `None` = malformed
 fn step_op<T: HItem>(side: &mut Side<T>, toks: &[&str]) -> Option<(String, String)> {
     let Side { n, tree, shadow, last } = side;
@@ -1379,34 +1487,7 @@ fn step_op<T: HItem>(side: &mut Side<T>, toks: &[&str]) -> Option<(String, Strin
             if pos >= n {
                 return None;
             }
-            let log: RefCell<Vec<T>> = RefCell::new(Vec::new());
-            let f = |x: &T| {
-                log.borrow_mut().push(x.clone());
-                g(&x.obs())
-            };
-            let res = if rev { catch(|| tree.lower_bound_rev(pos, f)) } else { catch(|| tree.lower_bound(pos, f)) };
-            match res {
-                Ok(o) => {
-                    let log = log.into_inner();
-                    let lr: Vec<String> = log.iter().map(|p| p.raw()).collect();
-                    let raw = format!("{} [{}]", show_idx(o), lr.join(", "));
-                    let (aggs, _) = dir_aggs::<T>(shadow, pos, rev);
-                    let flags: Vec<bool> = aggs.iter().map(|a| g(a)).collect();
-                    let probes: Vec<T::O> = log.iter().map(|p| p.obs()).collect();
-                    let is_range = probes.iter().all(|p| aggs.contains(p));
-                    let pv: Vec<String> = probes.iter().map(|p| T::o_view(p)).collect();
-                    (
-                        raw,
-                        format!(
-                            "{} [{}] {}",
-                            if monotone(&flags) { show_idx(o) } else { "nm".into() },
-                            pv.join(","),
-                            if is_range { "P" } else { "p!" }
-                        ),
-                    )
-                }
-                Err(e) => (e.clone(), e),
-            }
+            search_op::<T>(tree, shadow, rev, pos, &g, &|_| true)
         }
         ["dbg"] => match catch(|| tree.debug()) {
             Ok(s) => {
@@ -1551,14 +1632,25 @@ fn run_history<T: HItem>(ctor: &str, n: usize, vals: &[&str], ops: &[&str]) -> S
         let t: Vec<&str> = o.split_whitespace().collect();
         !t.is_empty() && (t[0] == "b" || t[0] == "x" || t[0] == "y")
     });
+    let mut vals2 = vals.clone();
+    if ctor != "new" {
+        vals2.push(vals[0].clone().place(n));
+    }
     if two {
-        let mut vals2 = vals.clone();
-        if ctor != "new" {
-            vals2.push(vals[0].clone().place(n));
-        }
         match build_tree::<T>(ctor, n + 1, &vals2) {
             Some((Ok(tree), shadow)) => sides.push(Side { n: n + 1, tree, shadow, last: None }),
             _ => return INVALID.into(),
+        }
+    }
+    // harness-private mirrors of the two trees for the re-entrant searches (`nlb` / `nlbr`): never printed
+    let nested = ops.iter().any(|o| o.split_whitespace().any(|t| t == "nlb" || t == "nlbr"));
+    let mut aux: Vec<Side<T>> = Vec::new();
+    if nested {
+        for (m, vs) in [(n, &vals), (n + 1, &vals2)] {
+            match build_tree::<T>(ctor, m, vs) {
+                Some((Ok(tree), shadow)) => aux.push(Side { n: m, tree, shadow, last: None }),
+                _ => return INVALID.into(),
+            }
         }
     }
     let mut raws: Vec<String> = vec!["ok".into()];
@@ -1584,10 +1676,26 @@ fn run_history<T: HItem>(ctor: &str, n: usize, vals: &[&str], ops: &[&str]) -> S
                 Some(rv) => rv,
                 None => return INVALID.into(),
             },
-            _ => match step_op(&mut sides[sel], &toks) {
-                Some(rv) => rv,
-                None => return INVALID.into(),
-            },
+            [kind @ ("nlb" | "nlbr"), pos, pt @ ..] => {
+                let (pos, g) = match (pos.parse::<usize>(), T::parse_pred(pt)) {
+                    (Ok(p), Some(g)) if p < sides[sel].n => (p, g),
+                    _ => return INVALID.into(),
+                };
+                let mut it = sides.iter_mut();
+                let (a, b) = (it.next().unwrap(), it.next());
+                let (cur, other) = if sel == 0 { (a, b) } else { (b.unwrap(), Some(a)) };
+                nested_search::<T>(cur, other, &mut aux, *kind == "nlbr", pos, &g)
+            }
+            _ => {
+                // the mirrors follow every `set` / `mod` of their tree
+                if nested && matches!(toks.first(), Some(&"set") | Some(&"mod")) {
+                    let _ = step_op(&mut aux[sel], &toks);
+                }
+                match step_op(&mut sides[sel], &toks) {
+                    Some(rv) => rv,
+                    None => return INVALID.into(),
+                }
+            }
         };
         raws.push(raw);
         views.push(view);
@@ -2045,6 +2153,12 @@ fn gen_history<T: HItem>(name: &str, rng: &mut SplitMix64, focus: &str, st: &mut
                 let nm = if rev { "lbr" } else { "lb" };
                 st.bump(&format!("op_{}", nm));
                 st.bump(&format!("pred_{}", toks[0]));
+                // re-entrant predicate (`nlb` / `nlbr`): every other search of a history with two live trees, one in eight
+                // elsewhere (decided from the op number and position: the random stream stays what it was)
+                let nest = size < 3 && (opno + pos) % (if two { 2 } else { 8 }) == 0;
+                if nest {
+                    st.bump("search_with_reentrant_predicate");
+                }
                 if tagss[sel].crossed > 0 {
                     st.bump(&format!("{}_pushed_pending_tag", nm));
                 }
@@ -2053,7 +2167,7 @@ fn gen_history<T: HItem>(name: &str, rng: &mut SplitMix64, focus: &str, st: &mut
                 } else {
                     st.bump(if found { "search_answer_some" } else { "search_answer_none" });
                 }
-                line.push_str(&format!(" ; {}{} {} {}", pre, nm, pos, pt));
+                line.push_str(&format!(" ; {}{}{} {} {}", pre, if nest { "n" } else { "" }, nm, pos, pt));
             }
             5 => {
                 for i in 0..n {
